@@ -26,7 +26,7 @@ from .ops import Unsupported, truth, b2v, i2v, zint, zbool, zseq, to_val, to_vl,
 # ---------------------------------------------------------------------------------------------
 import re
 INTERNAL_TRACE = re.compile(r"\b(n_callees|callee_arg|callee_result|n_events|n_ev|all_calls_from_callee|all_getattr_on|"
-                            r"n_requests|request_kind|request_conn|request_args|request_result|n_ops|op_name|op_target|op_args|op_result|n_local)\b")
+                            r"n_requests|request_kind|request_conn|request_args|request_result|n_ops|op_name|op_target|op_args|op_result|n_local|ev_val|ev_raised)\b")
 
 
 class CheckerError(Exception):
@@ -215,7 +215,7 @@ class Executor(object):
         self.field_init = {}          # (oid, field) -> initial symbolic value (shared by all paths)
         self.unsupported = []
         self.paths = []
-        self.max_paths = 4000
+        self.max_paths = 12000
         self.used_externals = set()
         self.used_callee_clauses = set()
         self.inlined = set()
@@ -293,6 +293,20 @@ class Executor(object):
                     qualname, f.__code__.co_filename, f.__code__.co_firstlineno, node.lineno))
         return funcobj, node, mod, src
 
+    def global_obj(self, modname, name, kind="dict"):
+        """a mutable module-level container of the repository (e.g. a cache dict): ONE symbolic heap object per executor,
+        shared by every function that names it (its contents are arbitrary unless a contract says otherwise)"""
+        if not hasattr(self, "_global_objs"):
+            self._global_objs = {}
+        k = (modname, name)
+        if k not in self._global_objs:
+            self._global_objs[k] = Obj(dict if kind == "dict" else list, "%s.%s" % (modname, name), kind)
+        return self._global_objs[k]
+
+    def contract_module(self, contract):
+        m = contract.file[:-3].replace("/", ".")
+        return m[:-9] if m.endswith(".__init__") else m
+
     def is_repo_function(self, f):
         return isinstance(f, types.FunctionType) and \
             os.path.realpath(f.__code__.co_filename).startswith(self.repo_root + os.sep)
@@ -309,7 +323,7 @@ class Executor(object):
         oid = "%s/%s" % (prefix, name)
         self.obligations.append(Obligation(oid, list(st.pc) + list(extra_hyps), goal, props, kind, note,
                                            meta={"labels": list(st.labels), "function": c.target,
-                                                 "behaviour": b.name}))
+                                                 "behaviour": b.name, "group": getattr(self, "_cur_group", None)}))
 
     def netref_refcounts0(self):
         """____refcount__ of every proxy object at function entry (a heap array keyed by the proxy value)"""
@@ -469,6 +483,8 @@ class Executor(object):
                     st.env[fv] = ast.literal_eval(found[0].value)
                 except ValueError:
                     raise CheckerError("stale contract %s: free variable %s is no longer a literal" % (contract.target, fv))
+            elif srt.startswith("global:"):
+                st.env[fv] = self.global_obj(self.contract_module(contract), fv, srt[7:])
             else:
                 st.env[fv] = self.fresh_of(srt, fv)
         for g, s in beh.ghost.items():
@@ -538,6 +554,15 @@ class Executor(object):
         return ",".join(st.labels) if st.labels else "straight"
 
     def finish_path(self, st, out, pre, contract, beh):
+        # the obligations of ONE path end share the final path condition: they may be discharged as one query
+        self._group_counter = getattr(self, "_group_counter", 0) + 1
+        self._cur_group = self._group_counter
+        try:
+            return self._finish_path(st, out, pre, contract, beh)
+        finally:
+            self._cur_group = None
+
+    def _finish_path(self, st, out, pre, contract, beh):
         lab = self.path_label(st)
         if contract.effect_free:
             self.oblige(st, "effect-free@%s" % lab, z3.BoolVal(len(st.trace) == 0), props=self.all_props(beh),
@@ -611,6 +636,8 @@ class Executor(object):
                         extra_hyps=facts, note="a normal return is possible only under this condition on the entry state")
         # in postconditions a parameter name denotes its value at entry (parameters are mutable locals)
         scope = self.spec_scope(st, dict(pre.env, result=value))
+        if beh.exit_hints:
+            self.use_hints(st, beh.exit_hints, dict(pre.env, result=value))
         for cname, (expr, props) in beh.ensures.items():
             if cname.startswith("assumed_"):
                 self.assumed_clauses.add("%s.%s: %s" % (contract.qualname, cname, expr))
@@ -659,6 +686,8 @@ class Executor(object):
                 continue
             if k == ("$netref", "refcount") and "$refcounts" in modifies:
                 continue
+            if k == ("$sys", "epoch") and "$sysmodules" in modifies:
+                continue
             old = pre.heap.get(k, self.field_init.get(k, None))
             if old is v:
                 continue
@@ -679,8 +708,12 @@ class Executor(object):
         return self.oid_names.get(oid, "#%s" % (oid,))
 
     def resolve_location(self, st, m):
-        if m == "$refcounts":
+        if m in ("$refcounts", "$sysmodules"):
             return set()
+        if m.startswith("global:"):
+            _, modname, name = m.split(":")
+            o = self.global_obj(modname, name)
+            return {(o.oid, "map"), (o.oid, "has")}
         return self._resolve_location(st, m)
 
     def _resolve_location(self, st, m):
@@ -810,6 +843,10 @@ class Executor(object):
     def assign(self, st, target, v):
         """returns list of (state, outcome)"""
         if isinstance(target, ast.Name):
+            if self.cur[0].locals.get(target.id) == "vlist" and isinstance(v, Obj) and v.kind == "joinlist" and \
+                    self.heap_get(st, v, "n") == 0:
+                v = Obj(list, target.id, "vlist", allocated=True)       # `[]` bound to a local declared a list of values
+                st.heap[(v.oid, "items")] = SVL(VL.nil)
             st.env[target.id] = v
             return [(st, None)]
         if isinstance(target, (ast.Tuple, ast.List)):
@@ -1150,6 +1187,10 @@ class Executor(object):
                 else:
                     raise CheckerError("%s: cannot havoc local %r (=%r) at loop %d; declare its sort" % (
                         self.cur[0].target, n, cur, k))
+            if sort == "vlist" and isinstance(cur, Obj) and cur.kind == "vlist":
+                # a list of values mutated in place (append): the same object, arbitrary contents
+                st.heap[(cur.oid, "items")] = SVL(fresh("%s.items@loop%d" % (n, k), VL))
+                continue
             if sort == "joinlist-contents":
                 st.heap[(cur.oid, "joined")] = SBytes(fresh("%s.joined@loop%d" % (n, k), Bytes))
                 st.heap[(cur.oid, "n")] = SInt(fresh("%s.n@loop%d" % (n, k), Int))
@@ -1469,6 +1510,16 @@ class Executor(object):
             else:
                 yield st1, self.lib.new_list(self, st1, vs, e)
 
+    def ex_Dict(self, st, e):
+        """a dict literal with constant keys: a Python dict of the evaluated values (a value, not a heap object)"""
+        if any(k is None or not isinstance(k, ast.Constant) for k in e.keys):
+            raise Unsupported("dict literal with computed keys (line %d)" % e.lineno)
+        for st1, vs in self.ev_seq(st, list(e.values)):
+            if isinstance(vs, Raised):
+                yield st1, vs
+            else:
+                yield st1, {k.value: v for k, v in zip(e.keys, vs)}
+
     def ex_JoinedStr(self, st, e):
         yield st, SStr(fresh("fstr", Bytes))
 
@@ -1555,7 +1606,23 @@ class Executor(object):
                     other = b if isinstance(a, SVal) else a
                     k = "str" if ops.is_strlike(other) else "bytes" if ops.is_byteslike(other) else \
                         "num" if isinstance(other, SReal) else "int" if ops.is_intlike(other) else "str"
-                    a, b = self.narrow(st1, a, k, e, "operand"), self.narrow(st1, b, k, e, "operand")
+                    if self.cur[0].dynamic_errors and k == "str" and not (isinstance(a, SVal) and isinstance(b, SVal)):
+                        # text + dynamic value: text if the value is text; TypeError for any other plain value; the object's
+                        # own __add__ / __radd__ (a ghost Op event) for a heap object
+                        sv = a if isinstance(a, SVal) else b
+                        ln = self.rel_line(e)
+                        bad = st1.fork().assume(z3.And(z3.Not(Val.is_VStr(sv.z)), z3.Not(Val.is_VRef(sv.z)))).label("L%d:+ of text and non-text" % ln)
+                        if self.feasible(bad):
+                            yield bad, Raised(TypeError, ExcObj(TypeError))
+                        ref = st1.fork().assume(Val.is_VRef(sv.z))
+                        if self.feasible(ref):
+                            for r in self.lib.op_event(self, ref, "add", sv, [other], e):
+                                yield r
+                        st1.assume(Val.is_VStr(sv.z))
+                        a = SStr(Val.vs(a.z)) if isinstance(a, SVal) else a
+                        b = SStr(Val.vs(b.z)) if isinstance(b, SVal) else b
+                    else:
+                        a, b = self.narrow(st1, a, k, e, "operand"), self.narrow(st1, b, k, e, "operand")
             for r in self.with_errs(st1, ops.binop(e.op, a, b), e):
                 yield r
 
@@ -1819,7 +1886,17 @@ class Executor(object):
         classes = []
         mod = self.cur[3]
         import builtins
+        distinguishing = []
         for n in ast.walk(self.cur[4]):
+            if isinstance(n, ast.ExceptHandler) and n.type is not None:
+                distinguishing.extend(ast.walk(n.type))
+            elif isinstance(n, ast.Compare) and any(isinstance(o, (ast.Is, ast.IsNot)) for o in n.ops):
+                distinguishing.extend(ast.walk(n))
+            elif isinstance(n, ast.Call) and isinstance(n.func, ast.Name) and n.func.id in ("isinstance", "issubclass") and len(n.args) == 2:
+                distinguishing.extend(ast.walk(n.args[1]))
+            elif isinstance(n, ast.Raise) and n.exc is not None:
+                distinguishing.extend(ast.walk(n.exc))
+        for n in distinguishing:
             name = n.id if isinstance(n, ast.Name) else None
             if isinstance(n, ast.Attribute) and isinstance(n.value, ast.Name):
                 base = getattr(mod, n.value.id, None)
@@ -2063,6 +2140,9 @@ class Executor(object):
             if pname not in c.params:
                 raise CheckerError("contract of %s lacks parameter %s" % (c.target, pname))
             env[pname] = self.coerce(st, v, beh.params.get(pname, c.params[pname]), "%s.%s" % (name, pname), node)
+        for fv, srt in c.free.items():
+            if srt.startswith("global:"):
+                env[fv] = self.global_obj(self.contract_module(c), fv, srt[7:])     # the callee's module-level container
         # ghost instantiation from the caller's hints
         caller_scope = self.spec_scope(st)
         for g, sort in beh.ghost.items():
@@ -2208,9 +2288,11 @@ class Executor(object):
             for key in sorted(self.resolve_location(tmp, m)):
                 if key not in keys:
                     keys.append(key)
-        objs = {o.oid: o for o in list(self.live_objs(tmp)) + list(self.live_objs(st))}
+        objs = {o.oid: o for o in list(self.live_objs(tmp)) + list(self.live_objs(st)) + list(getattr(self, "_global_objs", {}).values())}
         if "$refcounts" in modifies:
             st.heap[("$netref", "refcount")] = SArr(fresh("refcount~%s" % tag, z3.ArraySort(Val, Int)))
+        if "$sysmodules" in modifies:
+            st.heap[("$sys", "epoch")] = SInt(fresh("sysmodules-epoch~%s" % tag, Int))     # the set of imported modules may have changed
         for key in keys:
             oid, fld = key
             if fld == "joined":
